@@ -254,7 +254,7 @@ def corpus(tier, seed):
     progs = [{"name": n, "templates": dict(AUX, main=src)} for n, src in CORE]
     rnd = random.Random(seed * 7919 + 36)
     g = Gen(rnd)
-    want = 18 if tier == "quick" else 220
+    want = 18 if tier == "quick" else 130
     tries = 0
     seen = {p["templates"]["main"] for p in progs}
     while want > 0 and tries < 5000:
@@ -336,9 +336,19 @@ def judge_run(ck, prog, r, predicted, stats):
         stats["warnings"] += 1
         ck.violation(dict(case, warning=w), f"warning during async render: {w} ({r.mode}, {r.how}) for "
                      f"{prog['templates']['main']!r}", {"kind": "warning", "how": r.how})
-    for name, st in r.other_final:
-        if st != "closed":
-            stats["out_of_scope_unclosed"].add(name)
+    for origin, name, st in r.other_final:
+        if st == "closed":
+            continue
+        if origin == "engine":
+            stats["leaks"] += 1
+            ck.violation(
+                dict(case, leaked=name, state=st, how=r.how),
+                f"async generator {name} (jinja2 runtime helper) left {st} when the task ended ({r.mode}, {r.how}, "
+                f"plan={r.plan}, stop_after={r.stop_after}) for main template {prog['templates']['main']!r}",
+                {"kind": "unclosed-generator", "site": name, "how": r.how},
+            )
+        else:
+            stats["out_of_scope_unclosed"].add(f"{origin}:{name}")
     return leaked
 
 
@@ -430,13 +440,13 @@ def run(ck):
     env = {"PROG_FILE": str(d / "progs.json")}
     fuel = 2 if quick else 3
 
-    pool = ThreadPoolExecutor(4)
+    pool = ThreadPoolExecutor(12)
     # TLC run A: as extracted - which behaviours leave a generator open?
     fa = pool.submit(core.run_tlc, PID, "AsyncGen", cfg_mc(fuel, False, []), workers=8, env=env, name="asis",
-                     coverage=True, timeout=3000)
+                     timeout=3000)
     # TLC run B: idealised design (abandoned loops close their generator): the invariant holds for every structure
     fb = pool.submit(core.run_tlc, PID, "AsyncGen", cfg_mc(fuel, True, ["C36_AllClosedAtTaskEnd"]), workers=6, env=env,
-                     name="ideal", timeout=3000)
+                     name="ideal", coverage=quick, timeout=3000)
 
     # real executions (while TLC runs)
     stats = {"leaks": 0, "unpredicted": 0, "unpredicted_examples": [], "warnings": 0, "out_of_scope_unclosed": set()}
@@ -451,9 +461,32 @@ def run(ck):
                 raise core.MachineryError(f"corpus template does not render: {p['templates']['main']!r}: "
                                           f"{getattr(r, 'error', r.how)}")
 
+    # trace selection (code->spec validation starts while the model checking runs)
+    rnd = random.Random(ck.seed + 36)
+    traces, tindex = [], []
+    for pi, (p, rs) in enumerate(zip(progs, runs_by_prog), 1):
+        picked = list(rs)
+        if quick:
+            # all complete runs, plus a sample of the disturbed ones (every run is judged below)
+            base = [r for r in picked if r.how == "complete"]
+            rest = [r for r in picked if r.how != "complete"]
+            rnd.shuffle(rest)
+            picked = base + rest[:2]
+        elif len(picked) > 26:
+            base = [r for r in picked if r.how == "complete"]
+            rest = [r for r in picked if r.how != "complete"]
+            rnd.shuffle(rest)
+            picked = base + rest[:24]
+        for r in picked:
+            traces.append({"pid": pi, "mode": r.mode, "ev": r.events})
+            tindex.append((pi, r))
+    nb = 2 if quick else 8
+    batches = [traces[i::nb] for i in range(nb)]
+    idx = [tindex[i::nb] for i in range(nb)]
+    futs = [pool.submit(validate_traces, ck, d, structures, b, 5 if quick else 2, f"tr{i}") for i, b in enumerate(batches)]
+
     ra = fa.result()
     ck.add_tlc(ra, "AsyncGen as extracted (leak report)")
-    ck.require_coverage(ra, ACTIONS)
     predicted = {}
     for line in sorted(set(ra.printed())):
         if not line.startswith("{"):
@@ -478,40 +511,25 @@ def run(ck):
     fc = pool.submit(core.run_tlc, PID, "AsyncGen", cfg_mc(fuel, False, ["C36_AllClosedAtTaskEnd"]), workers=8,
                      env={"PROG_FILE": str(d / "progs_safe.json")}, name="safe", timeout=3000)
 
-    # property-level verdict on the real runs, and trace selection
-    rnd = random.Random(ck.seed + 36)
-    traces, tindex = [], []
+    # property-level verdict on the real runs
     observed = {}
     for pi, (p, rs) in enumerate(zip(progs, runs_by_prog), 1):
         pred = predicted.get(pi, set())
-        picked = []
         for r in rs:
             leaked = judge_run(ck, p, r, pred, stats)
-            for s in leaked:
-                observed.setdefault(pi, set()).add((r.mode, r.how, s[0]))
-            picked.append(r)
-        if quick:
-            # all complete runs, plus a sample of the disturbed ones (every run was judged above)
-            base = [r for r in picked if r.how == "complete"]
-            rest = [r for r in picked if r.how != "complete"]
-            rnd.shuffle(rest)
-            picked = base + rest[:2]
-        for r in picked:
-            traces.append({"pid": pi, "mode": r.mode, "ev": r.events})
-            tindex.append((pi, r))
+            for s_ in leaked:
+                observed.setdefault(pi, set()).add((r.mode, r.how, s_[0]))
     ck.traces += nruns
     ck.evaluations += nruns
 
     rb = fb.result()
     ck.add_tlc(rb, "AsyncGen idealised design: C36_AllClosedAtTaskEnd")
+    if quick:
+        ck.require_coverage(rb, ACTIONS)  # vacuity guard (same actions as run A; coverage slows TLC, so off the critical path)
     rc = fc.result()
     ck.add_tlc(rc, f"AsyncGen as extracted, {len(safe)} structures without reported leak: C36_AllClosedAtTaskEnd")
 
     # code->spec
-    nb = 4 if quick else 8
-    batches = [traces[i::nb] for i in range(nb)]
-    idx = [tindex[i::nb] for i in range(nb)]
-    futs = [pool.submit(validate_traces, ck, d, structures, b, 4 if quick else 2, f"tr{i}") for i, b in enumerate(batches)]
     rejected = []
     for i, fu in enumerate(futs):
         r = fu.result()
@@ -571,7 +589,8 @@ def run(ck):
     ck.exhaustive = True
     ck.extra["exhaustive_note"] = ("per template set: every k (chunks) and every j (await points) executed on the real "
                                    "engine; TLC explores every consumer/data behaviour of each extracted structure up "
-                                   f"to Fuel={fuel} loop iterations; quick tier validates a sample of the runs as traces")
+                                   f"to Fuel={fuel} loop iterations; a sample of the runs (quick: 4 per template set, thorough: up to 26) "
+                                   "is validated as traces by TLC")
     ck.assumptions += [
         "the hand driver (coroutine.send/throw) is what an event loop does to one task: cancellation = throw "
         "CancelledError at the current await",
